@@ -173,8 +173,11 @@ def semantics_of_recipe(builder, header_text=None, port_names=()):
 def semantics_from_header(text, port_names):
     import re  # pylint: disable=import-outside-toplevel
     out = {}
+    caps = [n[0].upper() + n[1:] for n in port_names]
     for name in port_names:
         cap = name[0].upper() + name[1:]
+        if caps.count(cap) > 1:
+            continue                # two ports share an accessor name (p / P): the text does not tell them apart
         mat = re.search(r'::(Sts|Mts)<[^>]*>\s+(?:Provides|Requires)(?:MultiClient)?' + re.escape(cap) + r'\(', text)
         if mat:
             out[name] = 'STS' if mat.group(1) == 'Sts' else 'MTS'
